@@ -61,4 +61,16 @@ func init() {
 		explanation: "Decides structural necessary conditions of proof SOUNDNESS: every TxHeader / entry field flows into the hash that authenticates it; in the verifiers every parameter is used, every accepting path crosses each required comparison and each sub-verifier's verified edge (with the documented guards as the only alternatives), sub-verifiers are applied to header-derived arguments, VerifyLinearAdvanceProof accepts unconditionally only for adjacent txs and extends the chain only after a verified inclusion; on the client, the trusted state advances only after verifyDualProof (anchored in the trusted hash), signature check and a content-binding site, and the stored hash is the proven one; proto conversions carry every field. It does NOT decide completeness of proof generation nor the arithmetic of the Merkle verifiers.",
 		assumptions: []string{"sha256 collision resistance", "ahtree verifiers are correct for the positions they are given (C08 decides their guards)"},
 	})
+	register("C09", &propDef{
+		patterns: []string{"./embedded/store", "./pkg/database", "./embedded/appendable/...", "./embedded/tbtree"},
+		run:      c09,
+		explanation: "Decides the structural clauses behind corruption detection: every reader of a tx record ends in buildAndValidateHtree, which (unless the skip flag is set) rebuilds the entries tree over the digests of all entries read, recomputes Eh and compares Alh with the stored one; every value read compares length and sha256 with the entry's hVal unless the flag is set; the flag is constant true only at a frozen list of call sites and constant false on every verifiable path; sequential scans check the chain; open-time checks re-validate the last tx and the precommitted suffix. It does NOT decide that every bit flip changes a hash, nor absence of panics (C16).",
+		assumptions: []string{"sha256 second-preimage resistance"},
+	})
+	register("C04", &propDef{
+		patterns: []string{"./embedded/store", "./embedded/tbtree"},
+		run:      c04,
+		explanation: "Decides the structural clauses that keep the index equal to the committed log: nothing stored in the indexing bulk aliases the pooled transaction buffer; the tombstone of a previous mapped key is written with a writable metadata copy and its error checked; index entries carry the id of the tx they were read from, are built from per-transaction state only, and waiters are released by the tree's own logical time; non-indexable entries and foreign prefixes are skipped; an index ahead of the log is rejected; on the read side deleted/expired filters are applied before offsets and results; plus the TS-file/flush ordering shared with C03. It does NOT decide B-tree content (C10) nor key-mapper functions.",
+		assumptions: []string{"entry mappers return freshly allocated keys"},
+	})
 }
